@@ -26,7 +26,13 @@ var repo = flag.String("repo", "/repo", "repository root")
 var outLean = flag.String("lean", "", "output Lean file (Consts)")
 var outFP = flag.String("fp", "", "output fingerprints JSON")
 
+var baseFPPath = flag.String("basefp", "", "baseline fingerprints (JSON) of the tree the checks were last validated on")
+
 var lost []string
+
+// plainHash: fingerprint of every function looked up, as written; baseFP: the committed baseline
+var plainHash = map[string]string{}
+var baseFP map[string]string
 
 func anchorLost(f string, a ...interface{}) { lost = append(lost, fmt.Sprintf(f, a...)) }
 
@@ -50,6 +56,7 @@ func parse(rel string) *file {
 		return nil
 	}
 	cache[rel] = &file{fset, f, rel}
+	loadPkgConsts(rel)
 	return cache[rel]
 }
 
@@ -78,6 +85,21 @@ func (f *file) funcDecl(name string) *ast.FuncDecl {
 			}
 		}
 		if r == recv {
+			key := f.path + ":" + name
+			if !expandedDecls[fd] {
+				if _, seen := plainHash[key]; !seen || !expandHelpers {
+					doc := fd.Doc
+					fd.Doc = nil
+					h := sha256.Sum256([]byte(exprStr(token.NewFileSet(), fd)))
+					fd.Doc = doc
+					plainHash[key] = fmt.Sprintf("%x", h[:8])
+				}
+			}
+			// fallback reading only for functions that differ from the baseline the checks were last
+			// validated on: unchanged functions are read exactly as before
+			if expandHelpers && (baseFP == nil || baseFP[key] != plainHash[key]) {
+				f.expandDecl(fd)
+			}
 			return fd
 		}
 	}
@@ -88,43 +110,221 @@ func (f *file) funcDecl(name string) *ast.FuncDecl {
 func exprStr(fset *token.FileSet, e ast.Node) string {
 	var b bytes.Buffer
 	printer.Fprint(&b, fset, e)
-	return b.String()
+	s := b.String()
+	if _, isDecl := e.(*ast.FuncDecl); !isDecl && strings.ContainsAny(s, "\n\t") {
+		// synthesised nodes (fallback reading) carry no positions and make the printer break lines
+		// in odd places: compare expressions and statements modulo white space
+		s = strings.Join(strings.Fields(s), " ")
+	}
+	return s
 }
 
-// cmpLit finds, inside fn, the first binary expression `<lhs> <op> <int literal>` whose printed
-// left operand equals lhs and whose operator is op; returns the literal.
+// localDefs maps every local identifier of fd that is defined exactly once (`x := e` or
+// `var x = e`) and never assigned again to the printed form of e: a one-level copy propagation, so
+// that hoisting `len(data)` into a local does not lose an anchor.
+func (f *file) localDefs(fd *ast.FuncDecl) map[string]string {
+	defs := map[string]string{}
+	count := map[string]int{}
+	ast.Inspect(fd, func(n ast.Node) bool {
+		switch x := n.(type) {
+		case *ast.AssignStmt:
+			for i, l := range x.Lhs {
+				id, ok := l.(*ast.Ident)
+				if !ok {
+					continue
+				}
+				count[id.Name]++
+				if x.Tok == token.DEFINE && len(x.Lhs) == len(x.Rhs) {
+					defs[id.Name] = exprStr(f.fset, x.Rhs[i])
+				}
+			}
+		case *ast.IncDecStmt:
+			if id, ok := x.X.(*ast.Ident); ok {
+				count[id.Name] += 2
+			}
+		case *ast.ValueSpec:
+			for i, id := range x.Names {
+				count[id.Name]++
+				if len(x.Values) == len(x.Names) {
+					defs[id.Name] = exprStr(f.fset, x.Values[i])
+				}
+			}
+		case *ast.RangeStmt:
+			for _, e := range []ast.Expr{x.Key, x.Value} {
+				if id, ok := e.(*ast.Ident); ok {
+					count[id.Name] += 2
+				}
+			}
+		}
+		return true
+	})
+	for k := range defs {
+		if count[k] != 1 {
+			delete(defs, k)
+		}
+	}
+	return defs
+}
+
+// normCmp rewrites `x found c` as the equivalent (or exactly complementary) `x want c'`; ok=false
+// when the two operators are unrelated. The complementary form is accepted because an if/else with
+// swapped branches is the same program; whether the branches still do the same is for the
+// correspondence run to say, not for the extractor.
+func normCmp(want, found token.Token, c int64) (int64, bool) {
+	if want == found {
+		return c, true
+	}
+	type k struct{ w, f token.Token }
+	d, ok := map[k]int64{
+		{token.GTR, token.GEQ}: -1, {token.GTR, token.LEQ}: 0, {token.GTR, token.LSS}: -1,
+		{token.GEQ, token.GTR}: 1, {token.GEQ, token.LSS}: 0, {token.GEQ, token.LEQ}: 1,
+		{token.LSS, token.LEQ}: 1, {token.LSS, token.GEQ}: 0, {token.LSS, token.GTR}: 1,
+		{token.LEQ, token.LSS}: -1, {token.LEQ, token.GTR}: 0, {token.LEQ, token.GEQ}: -1,
+		{token.EQL, token.NEQ}: 0, {token.NEQ, token.EQL}: 0,
+	}[k{want, found}]
+	return c + d, ok
+}
+
+var mirrorOp = map[token.Token]token.Token{token.GTR: token.LSS, token.LSS: token.GTR, token.GEQ: token.LEQ,
+	token.LEQ: token.GEQ, token.EQL: token.EQL, token.NEQ: token.NEQ}
+
+// cmpLit finds, inside fn, a comparison of lhs with an integer literal that is `<lhs> <op> <literal>`
+// or an equivalent spelling of it (operands flipped, `>= c+1` for `> c`, the complementary test of
+// an if/else with swapped branches, lhs hoisted into a local defined once), and returns the literal
+// normalised to op. Exact spellings win over equivalent ones; if lhs itself is not found (a renamed
+// local) but the function contains exactly one comparison related to op, that one is taken.
 func (f *file) cmpLit(fnName, lhs string, op token.Token) (int64, bool) {
 	fd := f.funcDecl(fnName)
 	if fd == nil {
 		return 0, false
 	}
-	var val int64
-	found := false
+	defs := f.localDefs(fd)
+	type cand struct {
+		val      int64
+		lhsMatch bool
+		opExact  bool
+	}
+	var cands []cand
 	ast.Inspect(fd, func(n ast.Node) bool {
-		if found {
-			return false
-		}
 		be, ok := n.(*ast.BinaryExpr)
-		if !ok || be.Op != op {
+		if !ok {
 			return true
 		}
-		if exprStr(f.fset, be.X) != lhs {
+		x, y, bop := be.X, be.Y, be.Op
+		if _, isLit := intLit(x); isLit {
+			if m, ok := mirrorOp[bop]; ok {
+				x, y, bop = y, x, m
+			}
+		}
+		c, ok := intLit(y)
+		if !ok {
 			return true
 		}
-		if v, ok := intLit(be.Y); ok {
-			val, found = v, true
-			return false
+		v, ok := normCmp(op, bop, c)
+		if !ok {
+			return true
 		}
+		xs := exprStr(f.fset, x)
+		match := xs == lhs
+		if id, isID := x.(*ast.Ident); isID && defs[id.Name] == lhs {
+			match = true
+		}
+		cands = append(cands, cand{v, match, bop == op})
 		return true
 	})
-	if !found {
-		anchorLost("%s: %s: comparison `%s %s <literal>` not found", f.path, fnName, lhs, op)
+	for _, want := range []func(cand) bool{
+		func(c cand) bool { return c.lhsMatch && c.opExact },
+		func(c cand) bool { return c.lhsMatch },
+	} {
+		for _, c := range cands {
+			if want(c) {
+				return c.val, true
+			}
+		}
 	}
-	return val, found
+	vals := map[int64]bool{}
+	for _, c := range cands {
+		vals[c.val] = true
+	}
+	if len(vals) == 1 {
+		fmt.Printf("ANCHOR-FUZZY: %s: %s: `%s %s <literal>` taken from the only related comparison\n", f.path, fnName, lhs, op)
+		return cands[0].val, true
+	}
+	anchorLost("%s: %s: comparison `%s %s <literal>` not found", f.path, fnName, lhs, op)
+	return 0, false
+}
+
+// timeUnits: the duration constants of package time, in nanoseconds
+var timeUnits = map[string]int64{"Nanosecond": 1, "Microsecond": 1e3, "Millisecond": 1e6, "Second": 1e9,
+	"Minute": 60e9, "Hour": 3600e9}
+
+// pkgConsts: package-level integer constants (without iota) of every directory a mirrored file
+// lives in, by name; a name that has different values in different packages is dropped. Lets a
+// literal that a clean-up turned into a named constant still be read as that literal.
+var pkgConsts = map[string]int64{}
+var pkgConstsBad = map[string]bool{}
+var pkgConstDirs = map[string]bool{}
+
+func loadPkgConsts(rel string) {
+	dir := filepath.Dir(rel)
+	if pkgConstDirs[dir] {
+		return
+	}
+	pkgConstDirs[dir] = true
+	matches, _ := filepath.Glob(filepath.Join(*repo, dir, "*.go"))
+	type pending struct {
+		name string
+		e    ast.Expr
+	}
+	var todo []pending
+	for _, m := range matches {
+		if strings.HasSuffix(m, "_test.go") {
+			continue
+		}
+		af, err := parser.ParseFile(token.NewFileSet(), m, nil, parser.SkipObjectResolution)
+		if err != nil {
+			continue
+		}
+		for _, d := range af.Decls {
+			gd, ok := d.(*ast.GenDecl)
+			if !ok || gd.Tok != token.CONST {
+				continue
+			}
+			for _, sp := range gd.Specs {
+				vs := sp.(*ast.ValueSpec)
+				if len(vs.Values) != len(vs.Names) {
+					continue
+				}
+				for i, n := range vs.Names {
+					todo = append(todo, pending{n.Name, vs.Values[i]})
+				}
+			}
+		}
+	}
+	for pass := 0; pass < 3; pass++ {
+		for _, t := range todo {
+			if v, ok := intLit(t.e); ok {
+				if old, seen := pkgConsts[t.name]; seen && old != v {
+					pkgConstsBad[t.name] = true
+				}
+				pkgConsts[t.name] = v
+			}
+		}
+	}
 }
 
 func intLit(e ast.Expr) (int64, bool) {
 	switch x := e.(type) {
+	case *ast.Ident:
+		if v, ok := pkgConsts[x.Name]; ok && !pkgConstsBad[x.Name] {
+			return v, true
+		}
+	case *ast.SelectorExpr:
+		if id, ok := x.X.(*ast.Ident); ok && id.Name == "time" {
+			if v, ok := timeUnits[x.Sel.Name]; ok {
+				return v, true
+			}
+		}
 	case *ast.BasicLit:
 		if x.Kind == token.INT {
 			v, err := strconv.ParseInt(x.Value, 0, 64)
@@ -233,15 +433,8 @@ type kv struct {
 	v int64
 }
 
-func main() {
-	flag.Parse()
-	var consts []kv
-	add := func(k string, v int64, ok bool) {
-		if ok {
-			consts = append(consts, kv{k, v})
-		}
-	}
-
+// extractAll runs every recogniser (core + plug-ins) against the parsed repository.
+func extractAll(add func(k string, v int64, ok bool)) {
 	// ---- codec.go ----
 	codec := parse("tars/protocol/codec/codec.go")
 	tys := codec.iotaConsts("BYTE")
@@ -310,6 +503,87 @@ func main() {
 	for _, e := range extras {
 		e(add)
 	}
+}
+
+// runExtraction: one pass over the repository. With expand=false functions are read as written. With
+// expand=true (fallback, only used when the plain pass lost an anchor) every looked-up function is
+// read together with the bodies of the same-package functions it calls (two levels) and with its
+// switch statements rewritten as if/else chains, so that "extract helper" and "if-chain to switch"
+// clean-ups do not lose anchors.
+func runExtraction(expand bool) ([]kv, []string) {
+	cache = map[string]*file{}
+	lost = nil
+	expandHelpers = expand
+	expandedDecls = map[*ast.FuncDecl]bool{}
+	pkgFuncs = map[string]map[string][]*ast.FuncDecl{}
+	var consts []kv
+	add := func(k string, v int64, ok bool) {
+		if ok {
+			consts = append(consts, kv{k, v})
+		}
+	}
+	extractAll(add)
+	return consts, lost
+}
+
+func sortStrings(a []string) { sort.Strings(a) }
+
+func lostKey(msg string) string {
+	parts := strings.SplitN(msg, ": ", 3)
+	if len(parts) < 3 {
+		return msg
+	}
+	return parts[0] + ": " + parts[1]
+}
+
+func main() {
+	flag.Parse()
+	if *baseFPPath != "" {
+		if b, err := os.ReadFile(*baseFPPath); err == nil {
+			m := map[string]string{}
+			if json.Unmarshal(b, &m) == nil {
+				baseFP = m
+			}
+		}
+	}
+	consts, lost1 := runExtraction(false)
+	lost = lost1
+	if len(lost1) > 0 {
+		consts2, lost2 := runExtraction(true)
+		have := map[string]int{}
+		for i, c := range consts {
+			have[c.k] = i
+		}
+		for _, c := range consts2 {
+			if i, ok := have[c.k]; !ok {
+				have[c.k] = len(consts)
+				consts = append(consts, c)
+			} else if consts[i].v != c.v {
+				fmt.Printf("ANCHOR-REREAD: %s: %d as written, %d with the changed functions read together with their helpers\n", c.k, consts[i].v, c.v)
+				consts[i].v = c.v
+			}
+		}
+		keys1 := map[string]bool{}
+		for _, l := range lost1 {
+			keys1[lostKey(l)] = true
+		}
+		keys2 := map[string]bool{}
+		lost = nil
+		for _, l := range lost2 {
+			keys2[lostKey(l)] = true
+			if keys1[lostKey(l)] {
+				lost = append(lost, l)
+			}
+		}
+		for _, l := range lost1 {
+			if !keys2[lostKey(l)] {
+				fmt.Println("ANCHOR-RECOVERED (helpers expanded / switch as if-chain):", l)
+			}
+		}
+		// leave the parse cache in its plain state for the fingerprints
+		cache = map[string]*file{}
+		expandHelpers = false
+	}
 
 	if len(lost) > 0 {
 		for _, l := range lost {
@@ -360,6 +634,14 @@ func main() {
 		}
 	}
 	lost = nil // missing mirrored functions are reported through the fingerprint, not as lost anchors
+	for k, v := range plainHash {
+		if _, ok := fps[k]; !ok {
+			fps[k] = v
+		}
+	}
+	for k, v := range funcInventory() {
+		fps[k] = v
+	}
 	if *outFP != "" {
 		keys := make([]string, 0, len(fps))
 		for k := range fps {
